@@ -52,7 +52,11 @@ func (sc *Scenario) Build(seed int64, createTargetBR bool) (*World, *Proc, error
 	for i := range all {
 		objs = append(objs, all[i].pod())
 		if all[i].Opts.Claim != "" {
-			claims = append(claims, Claim(all[i].Opts.Claim))
+			if all[i].Opts.ClaimShared {
+				claims = append(claims, SharedClaim(all[i].Opts.Claim, sc.Node))
+			} else {
+				claims = append(claims, Claim(all[i].Opts.Claim))
+			}
 		}
 	}
 	w := NewWorld(objs, claims)
@@ -90,6 +94,7 @@ func C11Scenarios(tier string) []Scenario {
 		{Name: "multi-fraction-x2", Node: "node-1", Target: Workload{Name: "t", Opts: PodOpts{Fraction: "0.5", NumDevices: "2"}, Fraction: true, Groups: []string{"g1", "g2"}, Count: 2, Portion: "0.50"}},
 		{Name: "fraction-init-container", Node: "node-1", Target: Workload{Name: "t", Opts: PodOpts{Fraction: "0.5", InitContainer: "gpu-init"}, Fraction: true, Groups: []string{"g1"}, Count: 1, Portion: "0.50"}},
 		{Name: "dra-claim", Node: "node-1", Target: Workload{Name: "t", Opts: PodOpts{Claim: "claim-t"}, Count: 0, Portion: "0.00"}},
+		{Name: "dra-shared-claim", Node: "node-1", Target: Workload{Name: "t", Opts: PodOpts{Claim: "claim-t", ClaimShared: true}, Count: 0, Portion: "0.00"}},
 		{Name: "fraction-new-group-backoff2", Node: "node-1", Target: Workload{Name: "t", Opts: PodOpts{Fraction: "0.5"}, Fraction: true, Groups: []string{"g1"}, Count: 1, Portion: "0.50", Backoff: &two}},
 	}
 	if tier == "thorough" {
